@@ -286,6 +286,10 @@ func init() {
 	// ---- os / runtime environment
 	reg("runtime.Callers", func(fr *frame, a []value) value { return int64(0) })
 	reg("runtime.Caller", func(fr *frame, a []value) value { return tuple{int64(0), "", int64(0), false} })
+	reg("syscall.Umask", func(fr *frame, a []value) value { return int64(022) })
+	reg("os.Getpid", func(fr *frame, a []value) value { return int64(4242) })
+	reg("os.Getuid", func(fr *frame, a []value) value { return int64(1000) })
+	reg("os.Geteuid", func(fr *frame, a []value) value { return int64(1000) })
 	reg("os.Getenv", func(fr *frame, a []value) value { return "" })
 	reg("os.LookupEnv", func(fr *frame, a []value) value { return tuple{"", false} })
 	reg("os.Exit", func(fr *frame, a []value) value {
